@@ -17,12 +17,25 @@ def pupils(tier):
     return s
 
 
-def make(pupil, seed, power=None):
+def make(pupil, seed, power=None, variant=None):
+    """variant 'signed': amplitude with sign flips, negative on the rim of the support; 'seg3': three segments"""
     import lentil
     amp, opd, _ = op.pupil_arrays(pupil, 'cornerless' if min(pupil) > 2 else 'full', seed, tag=pupil[0] * 10 + pupil[1])
+    kw = {}
+    if variant == 'signed':
+        amp = amp.copy()
+        amp[0, :] *= -1
+        amp[:, -1] *= -1
+        amp[-1, :] = -np.abs(amp[-1, :])
+    if variant == 'seg3':
+        m3 = np.zeros((3,) + tuple(pupil))
+        for c in range(pupil[1]):
+            m3[c % 3][:, c] = 1
+        m3 = m3 * (amp != 0)
+        kw['mask'] = m3[[k for k in range(3) if m3[k].any()]]
     if power is not None:
         amp = lentil.normalize_power(amp, power)
-    w = lentil.Wavefront(WL) * lentil.Pupil(amplitude=amp.copy(), opd=opd.copy(), pixelscale=DX, focal_length=Z)
+    w = lentil.Wavefront(WL) * lentil.Pupil(amplitude=amp.copy(), opd=opd.copy(), pixelscale=DX, focal_length=Z, **kw)
     return w, op.phasor(amp, opd, WL)
 
 
@@ -34,7 +47,7 @@ def du_for(N, os_):
 def chk_full(case, acc, seed):
     import lentil
     pupil, N, os_, prop = tuple(case['pupil']), tuple(case['N']), case['os'], case['prop']
-    w, fin = make(pupil, seed, case.get('power'))
+    w, fin = make(pupil, seed, case.get('power'), case.get('variant'))
     pin = float(np.sum(np.abs(fin) ** 2))
     if case.get('power') is not None and abs(pin - case['power']) > 1e-12 * case['power']:
         acc.violation('normalize_power:value', case, f'sum|amp|^2 = {pin!r} != {case["power"]}')
@@ -47,7 +60,13 @@ def chk_full(case, acc, seed):
         else:
             # FFT propagator with a re-used, dirty scratch buffer (larger than the grid, prior content everywhere)
             scr = np.full((N[0] + 2, N[1] + 1), 7 + 1j, dtype=complex)
-            lentil.propagate_fft(w, du, oversample=os_, scratch=scr)
+            first = lentil.propagate_fft(w, du, oversample=os_, scratch=scr)
+            tot_first = float(np.sum(first.intensity))
+            w5, f5 = make(pupil, seed, 5.0)
+            lentil.propagate_fft(w5, du, oversample=os_, scratch=scr)           # another, brighter pupil through the same buffer
+            if abs(float(np.sum(first.intensity)) - tot_first) > 1e-10 * pin:
+                acc.violation('energy:fft-scratch:earlier-image-changed', case,
+                              f'the image returned by an earlier call changed from total {tot_first!r} to {float(np.sum(first.intensity))!r} when the scratch buffer was reused')
             out = lentil.propagate_fft(w, du, oversample=os_, scratch=scr)
         I = out.intensity
     except Exception as e:
@@ -73,7 +92,7 @@ def chk_nested(case, acc, seed):
     nested windows, non-negative and at most the input power.  Also nested mask bounding boxes."""
     import lentil
     pupil, N, os_ = tuple(case['pupil']), tuple(case['N']), case['os']
-    w, fin = make(pupil, seed)
+    w, fin = make(pupil, seed, None, case.get('variant'))
     pin = float(np.sum(np.abs(fin) ** 2))
     du = du_for(N, os_)
     S = (N[0] // os_, N[1] // os_)
@@ -166,6 +185,12 @@ def t_pupil(arg, acc):
                 for prop in ('dft', 'fft'):
                     acc.transitions += 1
                     chk_full({'kind': 'full', 'pupil': pupil, 'N': (Nr, Nc), 'os': 1, 'prop': prop, 'power': p}, acc, seed)
+            for variant in ('signed', 'seg3'):
+                for prop in ('dft', 'fft'):
+                    acc.transitions += 1
+                    chk_full({'kind': 'full', 'pupil': pupil, 'N': (Nr, Nc), 'os': 1, 'prop': prop, 'power': 3.0, 'variant': variant}, acc, seed)
+                if (Nr + Nc) % 3 == 0:
+                    chk_nested({'kind': 'nested', 'pupil': pupil, 'N': (Nr, Nc), 'os': 1, 'variant': variant}, acc, seed)
     if arg['Nr'] == pupil[0]:
         for p in (0.5, 1, 2, 7):
             chk_norm({'kind': 'norm', 'shape': pupil, 'power': p}, acc, seed)
